@@ -389,3 +389,232 @@ Proof.
     destruct Hy as [k [<- Hk]]. apply in_seq in Hk. destruct (Z.eqb _ _); [|lra].
     apply HW; [|lia]. apply (in_block_lt subs i); auto. lia.
 Qed.
+
+(* ------------------------------------------------------------------ F. rectangular cells *)
+Notation Rpt := (R * R)%type.
+
+Lemma floor_between (u : R) (k : Z) : (IZR k <= u < IZR k + 1) <-> Rfloor u = k.
+Proof.
+  split; [apply Rfloor_unique|]. intros <-. apply Rfloor_spec.
+Qed.
+
+Ltac runfold := unfold half, two, one, zero; cbn [add sub mul div opp ofZ leb ltb eqb ROps fst snd].
+
+(* the position of a point in cell units, measured from the top / left edge of the mesh *)
+Definition urow (cg : @cellgeom ROps) (p : Rpt) : R := (g_top cg - fst p) / g_h cg.
+Definition ucol (cg : @cellgeom ROps) (p : Rpt) : R := (snd p - g_left cg) / g_w cg.
+
+Lemma cell_contains_iff (cg : @cellgeom ROps) r c (p : Rpt) : g_h cg > 0 -> g_w cg > 0 ->
+  (@cell_contains ROps cg r c p = true <-> Rfloor (urow cg p) = r /\ Rfloor (ucol cg p) = c).
+Proof.
+  intros Hh Hw. unfold cell_contains, urow, ucol. runfold.
+  rewrite !andb_true_iff, !Rltb_true, !Rleb_true, <- !floor_between, !plus_IZR.
+  assert (A : forall a b, b > 0 -> forall k, (k <= a / b <-> k * b <= a)).
+  { intros a b Hb k. split; intros Hk.
+    - apply (Rmult_le_compat_r b) in Hk; [|lra]. unfold Rdiv in Hk. rewrite Rmult_assoc, Rinv_l in Hk; lra.
+    - apply (Rmult_le_reg_r b); [lra|]. unfold Rdiv. rewrite Rmult_assoc, Rinv_l; lra. }
+  assert (B : forall a b, b > 0 -> forall k, (a / b < k <-> a < k * b)).
+  { intros a b Hb k. split; intros Hk.
+    - apply (Rmult_lt_compat_r b) in Hk; [|lra]. unfold Rdiv in Hk. rewrite Rmult_assoc, Rinv_l in Hk; lra.
+    - apply (Rmult_lt_reg_r b); [lra|]. unfold Rdiv. rewrite Rmult_assoc, Rinv_l; lra. }
+  rewrite (A _ _ Hh), (B _ _ Hh), (A _ _ Hw), (B _ _ Hw). cbn [T ROps] in *. lra.
+Qed.
+
+Lemma pixel_rc_floor (g : @rmesh ROps) (p : Rpt) : ps0 g > 0 -> ps1 g > 0 ->
+  0 <= urow (@geom_of_mesh ROps g) p -> 0 <= ucol (@geom_of_mesh ROps g) p ->
+  @pixel_rc ROps g p = (Rfloor (urow (@geom_of_mesh ROps g) p), Rfloor (ucol (@geom_of_mesh ROps g) p)).
+Proof.
+  intros H0 H1 Hu Hc. unfold pixel_rc, centres_scaled. cbv zeta. runfold. f_equal.
+  - rewrite <- trunc_R_nonneg by assumption. f_equal.
+    unfold urow, geom_of_mesh. cbn [g_top g_h]. runfold. rewrite minus_IZR. cbn [T ROps] in *. field. lra.
+  - rewrite <- trunc_R_nonneg by assumption. f_equal.
+    unfold ucol, geom_of_mesh. cbn [g_left g_w]. runfold. rewrite minus_IZR. cbn [T ROps] in *. field. lra.
+Qed.
+
+(* for a point not above / left of the mesh, the code's (row, column) is the unique cell containing it *)
+Theorem pixel_rc_cell (g : @rmesh ROps) (p : Rpt) r c : ps0 g > 0 -> ps1 g > 0 ->
+  0 <= urow (@geom_of_mesh ROps g) p -> 0 <= ucol (@geom_of_mesh ROps g) p ->
+  (@cell_contains ROps (@geom_of_mesh ROps g) r c p = true <-> @pixel_rc ROps g p = (r, c)).
+Proof.
+  intros H0 H1 Hu Hc. rewrite pixel_rc_floor by assumption.
+  rewrite cell_contains_iff by (cbn [geom_of_mesh g_h g_w]; assumption).
+  split; [intros [-> ->]; reflexivity | intros E; injection E; auto].
+Qed.
+
+(* ---- min / max of a list as computed by np.min / np.max ---- *)
+Lemma minT_R a b : @minT ROps a b = Rmin a b.
+Proof.
+  unfold minT. cbn [ltb ROps]. unfold Rmin. destruct (Rltb b a) eqn:E; rbool; destruct (Rle_dec a b); lra.
+Qed.
+Lemma maxT_R a b : @maxT ROps a b = Rmax a b.
+Proof.
+  unfold maxT. cbn [ltb ROps]. unfold Rmax. destruct (Rltb a b) eqn:E; rbool; destruct (Rle_dec a b); lra.
+Qed.
+Lemma fold_min_le l : forall a, fold_left (@minT ROps) l a <= a /\ forall x, In x l -> fold_left (@minT ROps) l a <= x.
+Proof.
+  induction l as [|y l IH]; intros a; cbn [fold_left]; [split; [lra | intros x []]|].
+  destruct (IH (@minT ROps a y)) as [A B]. rewrite minT_R in *. pose proof (Rmin_l a y). pose proof (Rmin_r a y).
+  split; [lra|]. intros x [<-|Hx]; [lra | auto].
+Qed.
+Lemma fold_max_ge l : forall a, a <= fold_left (@maxT ROps) l a /\ forall x, In x l -> x <= fold_left (@maxT ROps) l a.
+Proof.
+  induction l as [|y l IH]; intros a; cbn [fold_left]; [split; [lra | intros x []]|].
+  destruct (IH (@maxT ROps a y)) as [A B]. rewrite maxT_R in *. pose proof (Rmax_l a y). pose proof (Rmax_r a y).
+  split; [lra|]. intros x [<-|Hx]; [lra | auto].
+Qed.
+Lemma minL_le (l : list R) x : In x l -> @minL ROps l <= x.
+Proof.
+  destruct l as [|a l]; [intros []|]. cbn [minL]. destruct (fold_min_le l a) as [A B]. intros [<-|H]; auto.
+Qed.
+Lemma maxL_ge (l : list R) x : In x l -> x <= @maxL ROps l.
+Proof.
+  destruct l as [|a l]; [intros []|]. cbn [maxL]. destruct (fold_max_ge l a) as [A B]. intros [<-|H]; auto.
+Qed.
+
+(* ---- the overlaid mesh ---- *)
+Section Overlay.
+  Variables (n0 n1 : Z) (grid : list Rpt) (b : R).
+  Hypothesis Hn0 : (0 < n0)%Z.
+  Hypothesis Hn1 : (0 < n1)%Z.
+  Hypothesis Hb : 0 < b.
+  Let g := @overlay ROps (n0, n1) grid b.
+  Let cg := @geom_of_extent ROps (n0, n1) grid b.
+
+  Lemma overlay_geom : @geom_of_mesh ROps g = cg.
+  Proof.
+    unfold g, cg, geom_of_mesh, geom_of_extent, overlay. cbn [shape0 shape1 ps0 ps1 origin0 origin1 fst snd]. runfold.
+    assert (IZR n0 <> 0) by (apply not_0_IZR; lia). assert (IZR n1 <> 0) by (apply not_0_IZR; lia).
+    f_equal; cbn [T ROps] in *; field; assumption.
+  Qed.
+  Lemma extent_pos p : In p grid -> g_h cg > 0 /\ g_w cg > 0.
+  Proof.
+    intros Hp. unfold cg, geom_of_extent. cbn [g_h g_w fst snd]. runfold.
+    pose proof (minL_le (map fst grid) (fst p) (in_map fst _ _ Hp)).
+    pose proof (maxL_ge (map fst grid) (fst p) (in_map fst _ _ Hp)).
+    pose proof (minL_le (map snd grid) (snd p) (in_map snd _ _ Hp)).
+    pose proof (maxL_ge (map snd grid) (snd p) (in_map snd _ _ Hp)).
+    assert (0 < IZR n0) by (apply IZR_lt; lia). assert (0 < IZR n1) by (apply IZR_lt; lia).
+    split; apply Rdiv_lt_0_compat; cbn [T ROps] in *; lra.
+  Qed.
+  (* every point of the grid lies strictly inside the mesh: 0 < u < n in cell units on both axes *)
+  Lemma overlay_inside p : In p grid -> 0 < urow cg p < IZR n0 /\ 0 < ucol cg p < IZR n1.
+  Proof.
+    intros Hp. destruct (extent_pos p Hp) as [Hh Hw]. unfold urow, ucol.
+    pose proof (minL_le (map fst grid) (fst p) (in_map fst _ _ Hp)).
+    pose proof (maxL_ge (map fst grid) (fst p) (in_map fst _ _ Hp)).
+    pose proof (minL_le (map snd grid) (snd p) (in_map snd _ _ Hp)).
+    pose proof (maxL_ge (map snd grid) (snd p) (in_map snd _ _ Hp)).
+    assert (P0 : 0 < IZR n0) by (apply IZR_lt; lia). assert (P1 : 0 < IZR n1) by (apply IZR_lt; lia).
+    assert (Eh : g_h cg * IZR n0 = (g_top cg) - (@minL ROps (map fst grid) - b)).
+    { unfold cg, geom_of_extent. cbn [g_h g_top fst snd]. runfold. cbn [T ROps] in *. field. lra. }
+    assert (Ew : g_w cg * IZR n1 = (@maxL ROps (map snd grid) + b) - g_left cg).
+    { unfold cg, geom_of_extent. cbn [g_w g_left fst snd]. runfold. cbn [T ROps] in *. field. lra. }
+    assert (Et : g_top cg = @maxL ROps (map fst grid) + b) by reflexivity.
+    assert (El : g_left cg = @minL ROps (map snd grid) - b) by reflexivity.
+    cbn [T ROps] in *.
+    repeat split.
+    - apply Rdiv_lt_0_compat; lra.
+    - apply (Rmult_lt_reg_r (g_h cg)); [lra|]. unfold Rdiv. rewrite Rmult_assoc, Rinv_l by lra. lra.
+    - apply Rdiv_lt_0_compat; lra.
+    - apply (Rmult_lt_reg_r (g_w cg)); [lra|]. unfold Rdiv. rewrite Rmult_assoc, Rinv_l by lra. lra.
+  Qed.
+  Lemma floor_range u n : 0 < u < IZR n -> (0 <= Rfloor u < n)%Z.
+  Proof.
+    intros [A B]. pose proof (Rfloor_spec u) as [C D]. split.
+    - assert (IZR (-1) < IZR (Rfloor u)) by (cbn; lra). apply lt_IZR in H. lia.
+    - assert (IZR (Rfloor u) < IZR n) by lra. apply lt_IZR in H. exact H.
+  Qed.
+
+  (* the code's pixel index of a grid point is in range and is the index of the unique cell that contains it *)
+  Theorem overlay_pixel_index p : In p grid ->
+    let rc := @pixel_rc ROps g p in
+    (0 <= fst rc < n0)%Z /\ (0 <= snd rc < n1)%Z /\ @pixel_index ROps g p = (fst rc * n1 + snd rc)%Z /\
+    forall r c, @cell_contains ROps cg r c p = true <-> (r, c) = rc.
+  Proof.
+    intros Hp. cbv zeta. destruct (extent_pos p Hp) as [Hh Hw]. destruct (overlay_inside p Hp) as [Hu Hc].
+    assert (G0 : ps0 g > 0) by (change (ps0 g) with (g_h (@geom_of_mesh ROps g)); rewrite overlay_geom; exact Hh).
+    assert (G1 : ps1 g > 0) by (change (ps1 g) with (g_w (@geom_of_mesh ROps g)); rewrite overlay_geom; exact Hw).
+    assert (E : @pixel_rc ROps g p = (Rfloor (urow cg p), Rfloor (ucol cg p))).
+    { rewrite pixel_rc_floor; rewrite ?overlay_geom; auto; lra. }
+    unfold pixel_index. rewrite E. cbn [fst snd].
+    split; [apply floor_range; assumption|]. split; [apply floor_range; assumption|]. split; [reflexivity|].
+    intros r c; split.
+    - intros H. apply cell_contains_iff in H; auto. destruct H as [-> ->]. reflexivity.
+    - intros H. injection H as -> ->. apply cell_contains_iff; auto.
+  Qed.
+End Overlay.
+
+(* ------------------------------------------------------------------ G. the rectangular mapper, end to end *)
+Lemma nth_map_default {A B} (f : A -> B) l i d : nth i (map f l) (f d) = f (nth i l d).
+Proof. apply map_nth. Qed.
+
+Section RectMapper.
+  Variables (m : mask) (subs : list nat) (grid : list Rpt) (n0 n1 : Z) (b : R).
+  Hypothesis Hlen : length subs = count_unmasked m.
+  Hypothesis Hsub : forall i, (i < length subs)%nat -> (1 <= nth i subs 0)%nat.
+  Hypothesis Hgrid : length grid = total_sub subs.
+  Hypothesis Hn0 : (0 < n0)%Z.
+  Hypothesis Hn1 : (0 < n1)%Z.
+  Hypothesis Hb : 0 < b.
+  Let g := @overlay ROps (n0, n1) grid b.
+  Let cg := @geom_of_extent ROps (n0, n1) grid b.
+  Let mp := fst (fst (@rect_psw ROps g grid)).
+  Let sz := snd (fst (@rect_psw ROps g grid)).
+  Let wt := snd (@rect_psw ROps g grid).
+  Let P := Z.to_nat (n0 * n1).
+  Let pt0 : Rpt := (0, 0).
+
+  Lemma rect_sz s : (s < length grid)%nat -> nth s sz 0%nat = 1%nat.
+  Proof. intros H. unfold sz, rect_psw. cbn [fst snd]. rewrite (nth_map_lt _ _ _ _ pt0) by exact H. reflexivity. Qed.
+  Lemma rect_mp s : (s < length grid)%nat -> nthZ (nth s mp []) 0 = @pixel_index ROps g (nth s grid pt0).
+  Proof. intros H. unfold mp, rect_psw. cbn [fst snd]. rewrite (nth_map_lt _ _ _ _ pt0) by exact H. reflexivity. Qed.
+  Lemma rect_wt s : (s < length grid)%nat -> nth 0 (nth s wt []) 0 = 1.
+  Proof. intros H. unfold wt, rect_psw. cbn [fst snd]. rewrite (nth_map_lt _ _ _ _ pt0) by exact H. reflexivity. Qed.
+
+  Lemma rect_mapper_ok : mapper_ok m subs P mp sz.
+  Proof.
+    constructor; auto. intros s k Hs Hk. rewrite <- Hgrid in Hs. rewrite rect_sz in Hk by exact Hs.
+    assert (k = 0%nat) by lia. subst k. rewrite rect_mp by exact Hs.
+    destruct (overlay_pixel_index n0 n1 grid b Hn0 Hn1 Hb (nth s grid pt0) (nth_In _ _ Hs)) as [A [B [C _]]].
+    fold g in A, B, C. rewrite C. unfold P. nia.
+  Qed.
+
+  Lemma rect_listed s p : (s < length grid)%nat -> (p < P)%nat ->
+    listed_weight mp sz wt s p = @rect_weight ROps cg (nth s grid pt0) p.
+  Proof.
+    intros Hs Hp. unfold listed_weight. rewrite rect_sz by exact Hs. cbn [seq map sumR].
+    rewrite rect_mp, rect_wt by exact Hs.
+    destruct (overlay_pixel_index n0 n1 grid b Hn0 Hn1 Hb (nth s grid pt0) (nth_In _ _ Hs)) as [A [B [C D]]].
+    fold g cg in A, B, C, D. rewrite C. unfold rect_weight. cbn [g_n1 cg geom_of_extent snd].
+    set (rc := @pixel_rc ROps g (nth s grid pt0)) in *.
+    destruct (@cell_contains ROps cg (Z.of_nat p / n1) (Z.of_nat p mod n1) (nth s grid pt0)) eqn:E.
+    - apply D in E. rewrite <- E. cbn [fst snd].
+      rewrite Z.mul_comm, <- Z.div_mod by lia. rewrite Z.eqb_refl. unfold one. cbn. lra.
+    - destruct (Z.eqb_spec (fst rc * n1 + snd rc) (Z.of_nat p)) as [Q|Q]; [|unfold zero; cbn; lra].
+      exfalso. apply not_true_iff_false in E. apply E. apply D. rewrite <- Q.
+      rewrite (Z.mul_comm (fst rc)). destruct rc as [r c]. cbn [fst snd] in *. f_equal.
+      + symmetry. apply (Z.div_unique_pos _ _ _ c); lia.
+      + symmetry. apply (Z.mod_unique_pos _ _ r c); lia.
+  Qed.
+
+  (* the mapping matrix of a rectangular mapper: flux conserved, non-negative, entry = claimed interpolation *)
+  Theorem rect_mapper_matrix :
+    exists M, @mapping_matrix ROps mp sz wt P (count_unmasked m) (slim_for_sub m subs) (@sub_fractions ROps subs) = Ok M
+      /\ mat_shape (count_unmasked m) P M
+      /\ (forall i, (i < count_unmasked m)%nat -> sumR (map (fun p => mgetR M i p) (seq 0 P)) = 1)
+      /\ (forall i p, (i < count_unmasked m)%nat -> (p < P)%nat -> 0 <= mgetR M i p)
+      /\ (forall i p, (i < count_unmasked m)%nat -> (p < P)%nat ->
+            mgetR M i p = sumR (map (fun s => 1 / INR (sq_n (nth i subs 0%nat)) * @rect_weight ROps cg (nth s grid pt0) p)
+                                    (block subs i))).
+  Proof.
+    destruct (entry_block_formula m subs P mp sz wt rect_mapper_ok) as [M [E [HS HE]]].
+    exists M. split; [exact E|]. split; [exact HS|]. split; [|split].
+    - apply (rows_sum_to_one m subs P mp sz wt M rect_mapper_ok); auto.
+      intros s Hs. rewrite <- Hgrid in Hs. rewrite rect_sz by exact Hs. cbn [seq map sumR]. rewrite rect_wt by exact Hs. lra.
+    - apply (rows_nonneg m subs P mp sz wt M rect_mapper_ok); auto.
+      intros s k Hs Hk. rewrite <- Hgrid in Hs. rewrite rect_sz in Hk by exact Hs. assert (k = 0%nat) by lia. subst k.
+      rewrite rect_wt by exact Hs. lra.
+    - intros i p Hi Hp. rewrite HE by auto. apply sumR_map_ext. intros s Hs. f_equal.
+      apply rect_listed; auto. rewrite Hgrid. apply (in_block_lt subs i); auto. lia.
+  Qed.
+End RectMapper.
